@@ -38,6 +38,9 @@ FUNCTIONS = ["ioflo.aio.tcp.serving.Server.serviceAxes", "Server.serviceConnects
              "Server.serviceAll", "ServerTls.serviceAxes", "ServerTls.serviceCxes", "ServerTls.serviceConnects",
              "Incomer.__init__", "Incomer.shutdown", "Incomer.shutclose", "Incomer.serviceReceives", "Incomer.receive",
              "IncomerTls.__init__", "IncomerTls.shutclose", "IncomerTls.serviceHandshake", "IncomerTls.receive"]
+TECHNIQUE = "E1: symbolic execution of the real Server/ServerTls/Incomer/IncomerTls over socket and TLS-context doubles; inductive step from any table state"
+LEVEL_TEXT = "bounded model checking: peers {A,B} x {absent, live, stale-open, stale-closed, closed-live, (TLS) pending} + one op (accept 1..2/3 queued connections from {A,B,C}, closeIx, removeIx, service calls)"
+LEVEL_NOTE = "table states, ops and peers are selector-symbolic; shutdown errors, handshake outcomes and recv behaviour symbolic"
 ASSUMPTIONS = [
     "listening socket, connection sockets and the TLS context are doubles; accept() raises EAGAIN when its queue is empty",
     "peer addresses are the concrete tuples A, B, C (used as dict keys by the code); table states, operation, peers of the queued "
